@@ -682,7 +682,7 @@ theorem runs_schemeBlock (ch : EbChoices) (o : EncOpts) (attId kind nc n attComp
     (hr : ∀ x ∈ portable.toList, -2 ^ 31 ≤ x ∧ x < 2 ^ 31)
     (hk3 : kind = 3 → NormalsOK o attId nc n portable)
     (hF : 3 * md.t.numFaces + 3 < 2 ^ 31) (hcorners : n ≤ 3 * md.t.numFaces)
-    (hcrease : CreaseCountOK ch attId nc md portable)
+    (hcrease : s = .constrainedMulti → CreaseCountOK ch attId nc md portable)
     (henc : encodeSchemeBlock ch o attId kind nc s md pos portable = .ok bs) :
     Runs (decodeIntegerValuesEb kind n nc attComponents md pointIds parentD) 514 bs
       (portable, TransformData.none) 514 := by
@@ -851,7 +851,7 @@ theorem runs_schemeBlock (ch : EbChoices) (o : EncOpts) (attId kind nc n attComp
           exact runs_apply_constrainedMulti md pos noPosF nc ch.conn isCrease
             (constrainedMultiEncode_isCrease_size md wt nc n _ portable corr isCrease hd hlen hcorr)
             (constrainedMultiEncode_streamOrder_size md wt nc n _ portable corr isCrease hd hlen hcorr)
-            (hcrease wt corr isCrease hwt hcorr) hF hinit hlo hhi corr portable maxPar hdec)
+            (hcrease rfl wt corr isCrease hwt hcorr) hF hinit hlo hhi corr portable maxPar hdec)
       simpa [schemeBytes, hk3'] using this
   | texCoords =>
     have h3 : kind ≠ 3 := hk
@@ -952,6 +952,17 @@ theorem runs_parent_of_enc (kind : Nat) (s : PScheme) (hk : SchemeKindOK kind s)
     refine runs_parentSourcesEb_none _ ?_ pointIds parentD 514
     cases s <;> simp only [PScheme.needsParent] at hp' <;> first | rfl | (simp only [decScheme]; split <;> rfl) | exact absurd hp' (by decide)
 
+theorem effectiveScheme_cm (s : PScheme) (portable : Array Int)
+    (h : effectiveScheme s portable = .constrainedMulti) : s = .constrainedMulti := by
+  unfold effectiveScheme at h
+  split at h
+  · split at h
+    · split at h
+      · cases h
+      · exact h
+    · exact h
+  · exact h
+
 /-- **the attribute value block of an Edgebreaker stream** (`SequentialIntegerAttributeEncoder::EncodeValues` with a
     mesh prediction scheme, read by `SequentialIntegerAttributeDecoder::DecodeValues`, bitstream 2.2): for every
     scheme the encoder can select — none, difference, parallelogram, constrained multi-parallelogram, tex-coords
@@ -966,7 +977,7 @@ theorem runs_encodeIntegerValuesEb (ch : EbChoices) (o : EncOpts) (attId kind nc
     (hr : ∀ x ∈ portable.toList, -2 ^ 31 ≤ x ∧ x < 2 ^ 31)
     (hk3 : kind = 3 → NormalsOK o attId nc n portable)
     (hF : 3 * md.t.numFaces + 3 < 2 ^ 31) (hcorners : n ≤ 3 * md.t.numFaces)
-    (hcrease : CreaseCountOK ch attId nc md portable)
+    (hcrease : scheme = .constrainedMulti → CreaseCountOK ch attId nc md portable)
     (henc : encodeIntegerValuesEb ch o attId kind nc numValues scheme md pointIds parentE portable = .ok (sch', bs)) :
     sch' = effectiveScheme scheme portable ∧
     Runs (decodeIntegerValuesEb kind n nc attComponents md pointIds parentD) 514 bs
@@ -983,6 +994,6 @@ theorem runs_encodeIntegerValuesEb (ch : EbChoices) (o : EncOpts) (attId kind nc
   have hk' := schemeKindOK_effective kind scheme portable hk
   exact ⟨rfl, runs_schemeBlock ch o attId kind nc n attComponents _ md pointIds parentD pos portable bs' hk'
     (runs_parent_of_enc kind _ hk' pointIds parentE parentD hpar pos hpos) hnc hn hlen hd h32 hr hk3 hF hcorners
-    hcrease hbs⟩
+    (fun h => hcrease (effectiveScheme_cm _ _ h)) hbs⟩
 
 end Draco.EbEnc
